@@ -221,6 +221,24 @@ func (app *EVMApp) getLastAppHash() common.Hash {
 	return EmptyTrieRoot
 }
 
+// rootBefore returns the state root a block executes on: the app hash its header names (the
+// result of the previous block). Normally that is the last committed root; after a crash between
+// the application's commit of this block and the node's own, the block is executed once more and
+// must start from the same root as the first time, not from its own result.
+func (app *EVMApp) rootBefore(block *gtypes.Block) common.Hash {
+	if block.Header != nil && len(block.Header.AppHash) > 0 {
+		return common.BytesToHash(block.Header.AppHash)
+	}
+	if block.Header != nil && block.Header.Height == 1 {
+		if info := app.Info(); info.LastBlockHeight >= 1 {
+			// the first block names no app hash: it runs on the genesis state
+			g := core.DefaultGenesis()
+			return g.ToBlock(nil).Root()
+		}
+	}
+	return app.getLastAppHash()
+}
+
 func (app *EVMApp) GetTxPool() gtypes.TxPool {
 	return app.pool
 }
@@ -377,7 +395,7 @@ func (app *EVMApp) OnExecute(height, round int64, block *gtypes.Block) (interfac
 		err error
 	)
 
-	if app.currentState, err = estate.New(app.getLastAppHash(), estate.NewDatabase(app.stateDb)); err != nil {
+	if app.currentState, err = estate.New(app.rootBefore(block), estate.NewDatabase(app.stateDb)); err != nil {
 		return nil, errors.Wrap(err, "create StateDB failed")
 	}
 	exeWithCPUParallelVeirfy(app.Signer, block.Data.Txs, nil, app.genExecFun(block, &res))
